@@ -106,6 +106,41 @@ theorem failed_call_views (s : Sys) (g : s.Good) (name : String) (handle : Nat)
   rw [h1, h2]
   exact ⟨h4 _ g.wf.cat, h4 _ g.engine⟩
 
+/-- event `e` is a call of a write method that reports an error at state `s` -/
+def CallFails (s : Sys) : Ev → Prop
+  | .call name handle docs ch => ∃ p, Expected.txnPrograms.lookup name = some p ∧
+      (run p { handle := handle, docs := (allocArgs s.heap docs).2 } ch ((allocArgs s.heap docs).1, s.txn)).2.2 = .error
+  | _ => False
+
+/-- every event of the history is a failing call at the state it is executed in -/
+def AllFail : Sys → List Ev → Prop
+  | _, [] => True
+  | s, e :: es => CallFails s e ∧ AllFail (s.step e) es
+
+/-- **failed_calls_run.**  Any number of failing calls in a row — each with its own arguments and failure point —
+    leave the transaction state, the published catalog, the snapshots and what every existing root observes
+    exactly as before the first of them. -/
+theorem failed_calls_run (s : Sys) (g : s.Good) (es : List Ev) (h : AllFail s es) :
+    (s.run es).txn = s.txn ∧ (s.run es).engine = s.engine ∧ (s.run es).snaps = s.snaps ∧
+    s.heap.size ≤ (s.run es).heap.size ∧
+    ∀ root, root < s.heap.size → observe (s.run es).heap root = observe s.heap root := by
+  induction es generalizing s with
+  | nil => exact ⟨rfl, rfl, rfl, Nat.le_refl _, fun _ _ => rfl⟩
+  | cons e es ih =>
+    obtain ⟨h1, h2⟩ := h
+    cases e with
+    | call name handle docs ch =>
+      obtain ⟨p, hl, herr⟩ := h1
+      obtain ⟨a1, a2, a3, a4⟩ := failed_call_invisible s g name handle docs ch p hl herr
+      obtain ⟨b1, b2, b3, b4, b5⟩ := ih (s.step (.call name handle docs ch)) (g.step _) h2
+      have le : s.heap.size ≤ (s.step (.call name handle docs ch)).heap.size := by
+        have := (call_agree name p hl handle docs ch s.heap s.txn).1
+        simp only [Sys.step, hl]; exact this
+      simp only [Sys.run]
+      exact ⟨b1.trans a1, b2.trans a2, b3.trans a3, Nat.le_trans le b4,
+        fun root hr => (b5 root (Nat.lt_of_lt_of_le hr le)).trans (a4 root hr)⟩
+    | begin | commit _ | abort | snapTxn | snapEngine => exact absurd h1 (by simp [CallFails])
+
 /-! ## Batches: a failing item contributes nothing, a succeeding item is installed -/
 
 open Lungo.Own.Stmt Lungo.Own.Cond Lungo.Own.CExpr Lungo.Own.HExpr Lungo.Expected
@@ -310,5 +345,10 @@ example : Expected.txnPrograms.lookup "Update" = some pUpdate ∧
     (run pUpdate { handle := 1, docs := (allocArgs hA []).2 } chFail ((allocArgs hA []).1, (⟨6, false⟩ : TxnState))).2.2 = .error ∧
     (6 : Nat) < hA.size := by
   refine ⟨by decide +kernel, by decide +kernel, by decide +kernel⟩
+
+
+/-- `AllFail` is inhabited: the real `Update` failing twice in a row (the second at the state the first left) -/
+example : AllFail ⟨hA, ⟨6, false⟩, 6, []⟩ [.call "Update" 1 [] chFail, .call "Update" 1 [] chFail] :=
+  ⟨⟨pUpdate, by decide +kernel, by decide +kernel⟩, ⟨pUpdate, by decide +kernel, by decide +kernel⟩, trivial⟩
 
 end Lungo.C02
